@@ -10,7 +10,8 @@ PARA_LINES = ['This program is free software', 'you can redistribute it and/or m
 VERB_LINES = ['indented code', ' more indented', 'x = 1;', '. dot first', '.', '..', ' .', '\u00a0nbsp first', '\u3000ideographic first', '\t tab then text', '\u2003\u00a0x']
 STATEMENTS = ['2001 Foo Bar', '2001-2003, 2005 Foo <f@x.org>', 'Foo Bar', '(C) 2001 X', '2001, Foo', '1999', '2001-2003 a b c d', 'Copyright Holder Inc.', '2001/2002 X',
               'Copyright (c) 2004-2006 Joe Bloggs', '(C) Copyright IBM Corp. 2001', 'copyright 2001 x', '\u00a9 2019 Y', 'Copyright: 2001 Z',
-              '\uff12\uff10\uff11\uff18 \u5c71\u7530\u592a\u90ce', '\u0662\u0660\u0660\u0661 x', '2018\u20102019 X', '\u00b2 squared', '2001\uff0d2003 Y', '\u0967\u096f\u096f\u096f']
+              '\uff12\uff10\uff11\uff18 \u5c71\u7530\u592a\u90ce', '\u0662\u0660\u0660\u0661 x', '2018\u20102019 X', '\u00b2 squared', '2001\uff0d2003 Y', '\u0967\u096f\u096f\u096f',
+              '1991, 1992, 1993,', '1995, 1996, 1997,', '1999 FSF, Inc.', '2001,', '2002-2004,', 'Foo,']
 PATTERNS = ['*', 'src/*', 'debian/*', 'a.c', 'doc/*.txt', 'x?y', 'data/table,v', 'vendor/a,b.min.js', 'win32\\', 'a\\*b', ',']
 NAMES = ['GPL-2+', 'MIT', 'Apache-2.0', 'GPL-2+ with OpenSSL exception', 'public-domain', 'BSD-3-clause or GPL-2', 'GPL-2+   with   OpenSSL exception', 'GPL-2+  or  MIT', 'MIT ,', 'a\tb']
 FORMATS = ['https://www.debian.org/doc/packaging-manuals/copyright-format/1.0/', 'http://www.debian.org/doc/packaging-manuals/copyright-format/1.0/']
@@ -142,6 +143,15 @@ def doc(rng, allow_multiline_extra=True):
             p.append(f_extra(rng, used))
         rng.shuffle(p)
         paras.append(p)
+        # the same paragraph again, verbatim, once or several times in a row (a license text quoted for every component)
+        if rng.random() < 0.12:
+            import copy
+            for _k in range(rng.choice((1, 2, 2, 3))):
+                paras.append(copy.deepcopy(p))
+    if len(paras) >= 4 and rng.random() < 0.1:
+        # ... or alternating: A B A B
+        import copy
+        paras.extend(copy.deepcopy(paras[-2:]))
     if not allow_multiline_extra:
         for p in paras:
             for f in p:
